@@ -7,7 +7,7 @@ use crate::{
     TickArraySequence, TickArrays, TickFacade, TransferFee, WhirlpoolFacade,
     AMOUNT_EXCEEDS_MAX_U64, ARITHMETIC_OVERFLOW, INVALID_ADAPTIVE_FEE_INFO,
     INVALID_SQRT_PRICE_LIMIT_DIRECTION, MAX_SQRT_PRICE, MIN_SQRT_PRICE,
-    SQRT_PRICE_LIMIT_OUT_OF_BOUNDS, ZERO_TRADABLE_AMOUNT,
+    SQRT_PRICE_LIMIT_OUT_OF_BOUNDS, TRADE_IS_NOT_ENABLED, ZERO_TRADABLE_AMOUNT,
 };
 
 #[cfg(feature = "wasm")]
@@ -46,6 +46,8 @@ pub fn swap_quote_by_input_token(
     } else {
         (transfer_fee_b, transfer_fee_a)
     };
+    verify_trade_enabled(&oracle, timestamp)?;
+
     let token_in_after_fee =
         try_apply_transfer_fee(token_in.into(), transfer_fee_in.unwrap_or_default())?;
 
@@ -122,6 +124,8 @@ pub fn swap_quote_by_output_token(
     } else {
         (transfer_fee_a, transfer_fee_b)
     };
+    verify_trade_enabled(&oracle, timestamp)?;
+
     let token_out_before_fee =
         try_reverse_apply_transfer_fee(token_out, transfer_fee_out.unwrap_or_default())?;
 
@@ -163,6 +167,15 @@ pub fn swap_quote_by_output_token(
         trade_fee_rate_min: swap_result.applied_fee_rate_min,
         trade_fee_rate_max: swap_result.applied_fee_rate_max,
     })
+}
+
+/// The program refuses every swap on a pool whose oracle carries a trade enable timestamp in the future
+/// (`TradeIsNotEnabled`); a quote for such a pool must fail as well.
+fn verify_trade_enabled(oracle: &Option<OracleFacade>, timestamp: u64) -> Result<(), CoreError> {
+    match oracle {
+        Some(oracle) if oracle.trade_enable_timestamp > timestamp => Err(TRADE_IS_NOT_ENABLED),
+        _ => Ok(()),
+    }
 }
 
 pub struct SwapResult {
